@@ -329,8 +329,16 @@ func (s *Store) Instantiate(
 		return nil, err
 	}
 
+	// The close notifier must be in place before the module becomes visible
+	// to others: a concurrent close (e.g. of the whole runtime) right after
+	// registration would otherwise close the module without notifying.
+	if closeNotifier, ok := ctx.Value(expctxkeys.CloseNotifierKey{}).(experimental.CloseNotifier); ok {
+		m.CloseNotifier = closeNotifier
+	}
+
 	// Now that the instantiation is complete without error, add it.
 	if err = s.registerModule(m); err != nil {
+		m.CloseNotifier = nil // never became visible: nothing to notify.
 		_ = m.Close(ctx)
 		return nil, err
 	}
